@@ -243,6 +243,10 @@ def one_case(ctx, sc, k, n, mode, follow):
                                        % (stale[0], r2.rc, r2.errors()[:1]))
             else:
                 res['problems'].append('the follow-up run (%s) exits %d: %s' % (follow, r2.rc, r2.errors()[:2]))
+        # what verification says about the storage the history ends with (used by C13)
+        v = core.run_lines(core.harness_exe(ctx), [core.req('verify', {'root': root})])[0]
+        res['verify'] = {'ok': v.get('ok') if isinstance(v, dict) else None, 'errors': [m for l, m in (v.get('logs') or []) if l == 'E'][:3] if isinstance(v, dict) else str(v)[:200]}
+        res['stale_adopted'] = bool(r2.rc != 0 and any('Suspicious first backup' in e for e in r2.errors()))
         for (g, b) in s1_backups:
             if not os.path.isdir(os.path.join(root, g)):
                 continue            # whole group removed by retention
